@@ -228,8 +228,10 @@ type SecretFactory struct {
 }
 
 func (f *SecretFactory) memcall() memcall.Interface {
+	// A zero-value factory is shared by every session of a session factory: do not
+	// store the default here, concurrent first uses would race on the field.
 	if f.mc == nil {
-		f.mc = memcall.Default
+		return memcall.Default
 	}
 
 	return f.mc
